@@ -55,6 +55,8 @@ def gap_positions(root):
         n = len([c for c in el if isinstance(c.tag, str)])
         if n:
             out += [(pi, s) for s in range(n + 1)]
+        elif not (el.text or "").strip():
+            out.append((pi, 0))          # an EMPTY element (<UnitSet/>, <EntryList/>, an encoding without children): a comment inside it
     return out
 
 
@@ -70,7 +72,9 @@ def with_comments(xml_bytes, positions, text=" note "):
         kids = [c for c in el if isinstance(c.tag, str)]
         for slot in sorted(slots, reverse=True):
             c = ET.Comment(text)
-            if slot < len(kids):
+            if not kids:
+                el.append(c)
+            elif slot < len(kids):
                 kids[slot].addprevious(c)
             else:
                 kids[-1].addnext(c)
